@@ -28,6 +28,7 @@ type env struct {
 	fvAddrs     map[string]tval // captured variables of a closure: name -> address
 	fvSrc       map[string]ssa.Value // the FreeVar (inside the literal) or the bound Alloc (at the MakeClosure)
 	iterFrom    *ssa.BasicBlock // iteration-ensures: names resolve to values that dominate this back-edge source
+	iterLoop    *loopInfo       // iteration-ensures: the loop, for athead(x)
 	lenientLocals bool          // at-return: a local without a value on this path is an arbitrary value
 }
 
@@ -1137,6 +1138,25 @@ func (en *env) callExpr(v *ECall) tval {
 		}
 		mapCellSorts["sentlog"] = &Sort{name: "(Array Ref Bool)"}
 		return tval{term: fmt.Sprintf("(select (select %s %s) %s)", en.e.heap(en.st, "sentlog", mapCellSorts["sentlog"]), ch.term, val.term), typ: types.Typ[types.Bool]}
+	case "athead":
+		// athead(x), in an iteration-ensures clause: the value the loop variable x had at the
+		// beginning of the iteration that just ended
+		id, ok := v.Args[0].(*EIdent)
+		if !ok || en.iterLoop == nil {
+			en.fail("athead(x) needs a loop variable and an iteration-ensures clause")
+		}
+		for _, ins := range en.iterLoop.head.Instrs {
+			phi, isPhi := ins.(*ssa.Phi)
+			if !isPhi {
+				break
+			}
+			if phi.Comment == id.Name {
+				if t, has := en.iterLoop.phiPre[phi]; has {
+					return tval{term: t, typ: phi.Type()}
+				}
+			}
+		}
+		en.fail("athead(%s): no such loop variable", id.Name)
 	case "sameobj":
 		// sameobj(x, y): two references (of whatever static types) denote the same address; the
 		// memory model is untyped, so separation of differently typed objects is stated with it
@@ -1345,6 +1365,14 @@ func (en *env) specCall(sf *SpecFunc, v *ECall) tval {
 		en.e.V.declareSpecFunc(en, sf)
 		var ts []string
 		for _, a := range args {
+			if en.e.sortOf(a.typ).kind == skSlice && sf.Body == nil {
+				// an uninterpreted function of a slice is a function of the slice's window
+				// (base, offset, length): capacity is not part of what it denotes, so that
+				// s === t (same window) implies f(s) == f(t)
+				t := a.term
+				ts = append(ts, foldTerm(fmt.Sprintf("(mkslice (s_base %s) (s_off %s) (s_len %s) (s_len %s))", t, t, t, t)))
+				continue
+			}
 			ts = append(ts, a.term)
 		}
 		if len(ts) == 0 {
